@@ -166,11 +166,7 @@ where
     /// non-empty, or [`None`] otherwise.
     #[must_use]
     pub fn max_key_index(&self) -> Option<usize> {
-        if self.is_empty() {
-            None
-        } else {
-            Some(self.data.len() - 1)
-        }
+        self.data.iter().rposition(Option::is_some)
     }
 
     /// An iterator visiting all index-value pairs in arbitrary order. The
